@@ -135,3 +135,32 @@ def c11_class(op, impl):
     if n is not None and n <= sign_len + sum(1 for c in consumed[sign_len:] if sep and c == sep) and (first is None or not is_digit(first, f["radix"])):
         return "partial-ok-without-digit"
     return syntax_class(op, impl)
+
+
+def c13_class(v):
+    """root-cause classes of the C13 (digit separator) findings; `v` is a violation record of props/C13.py"""
+    cls = v.get("class")
+    if cls is None:
+        return syntax_class(v["op"], v["implementation"])
+    rel, api, flags, what = [x.strip() for x in cls.split("|")]
+    fl = flags.replace("flags ", "")
+    if rel == "R4" and api.startswith("pf"):
+        return "sep-format-uncounted-8digit-block"
+    if rel == "R4" and api.startswith("pi") and "err Empty" in what:
+        return "int-partial-no-digit-differs"
+    if rel == "R2" and "leading off" in what and "itc" in fl:
+        return "sep-itc-accepts-leading"
+    if rel == "R2" and "trailing off" in what and "ilc" in fl:
+        return "sep-ilc-accepts-trailing"
+    if "itc/itc/itc" in fl and "another value" in what:
+        return "sep-itc-without-leading"
+    if rel == "R3" and api == "pf hex" and "other count" in what:
+        return "sep-exponent-digit-test-uses-mantissa-radix"
+    if api == "pf dec" and ("another value" in what or "other value" in what):
+        # integer and fraction components carry different separator flags
+        if "=" in fl:
+            return "sep-slow-path-fraction-iterated-as-integer"
+        parts = fl.split("/")
+        if len(parts) == 3 and parts[0] != parts[1]:
+            return "sep-slow-path-fraction-iterated-as-integer"
+    return None
